@@ -957,6 +957,11 @@ class Interp:
                 return Opaque("str")
             if isinstance(recv, (Opaque, Sym)):
                 return Opaque(meth)
+            if isinstance(recv, __import__("re").Pattern) and meth in ("split", "match", "search", "fullmatch", "findall", "sub") and all(isinstance(a, (str, bytes, int)) for a in args):
+                r = getattr(recv, meth)(*args)
+                if meth in ("match", "search", "fullmatch") and r is not None:
+                    raise Unsupported(e, "(match object of a compiled pattern)")
+                return r
             if isinstance(recv, __import__("types").ModuleType) and (recv.__name__, meth) in NATIVE_MODULE_CALLS and not any(isinstance(a, (Obj, Opaque, Sym)) for a in args):
                 return getattr(recv, meth)(*args)  # a pure inspection function of the standard library on real objects
             if isinstance(recv, __import__("types").ModuleType) and (recv.__name__, meth) in NATIVE_MODULE_CONSTRUCTORS:
